@@ -53,6 +53,7 @@ package parser
 
 import (
 	"context"
+	"errors"
 	"fmt"
 	"strings"
 	"sync"
@@ -581,6 +582,13 @@ func (p *Parser) ParseContext(ctx context.Context, tokens []token.Token) (*ast.A
 		if err != nil {
 			// Clean up the AST on error
 			ast.ReleaseAST(result)
+			// Nested clause parsers (CTE, CASE, subquery, JOIN, set operations)
+			// re-wrap errors by message, which drops the context error from the
+			// chain. If the context is done, report the cancellation itself so
+			// that errors.Is(err, ctx.Err()) holds for callers.
+			if ctxErr := ctx.Err(); ctxErr != nil && !errors.Is(err, ctxErr) {
+				return nil, fmt.Errorf("parsing cancelled: %w", ctxErr)
+			}
 			return nil, err
 		}
 		result.Statements = append(result.Statements, stmt)
